@@ -18,7 +18,7 @@ ENGINES = [
     {"name": "codec-engine", "path": "gtmon/codecmon.py", "serves_properties": ["C07", "C08", "C14", "C15"], "kind_free_text":
      "AuxData type/value generators, independent reference codec and type-name recogniser, Java cross-check driver (java/Xcheck.java)"},
     {"name": "selftest", "path": "tools/selftest", "serves_properties": ["C%02d" % i for i in range(1, 20)], "kind_free_text":
-     "sensitivity / false-alarm self-validation: ~100 mutants must be caught, 17 behaviour-preserving refactorings must stay silent, 114 independently seeded changes from six rounds of sub-agents under seeded/ (tools/seed_matrix)"},
+     "sensitivity / false-alarm self-validation: ~100 mutants must be caught, 17 behaviour-preserving refactorings must stay silent, 133 independently seeded changes from seven rounds of sub-agents under seeded/ (tools/seed_matrix)"},
 ]
 CHECKS = {
     "C03": {
@@ -58,8 +58,8 @@ CHECKS = {
         "note": "Block views are compared with the CFG of the IR the block is attached to.",
     },
     "C12": {
-        "technique": "replica comparison under different lookup schedules (none / every step / bursts / threshold-targeted / twice) of one edit history, identical complete final probe; diagnostic hook classifies the lazy-index maintenance path taken",
-        "text": "420 histories x 5 schedules per quick run plus a scale stream (one container with 40/300/1100/2100 members, thorough up to 4200, three schedules); every final answer (all C05/C06/C13 lookups + section extents) identical across schedules. Evidence shows first-use, incremental-replay and rebuild paths and pending<,=,> size relations all observed on both tree kinds (non-empty collections only).",
+        "technique": "replica comparison under different lookup schedules (none / every step / bursts / threshold-targeted / twice) of one edit history, identical complete final probe and common probes at sync points inside the history (the looking replicas must agree mid-history too); diagnostic hook classifies the lazy-index maintenance path taken",
+        "text": "420 histories x 5 schedules per quick run plus a scale stream (one container with 40/300/1100/2100 members, thorough up to 4200, three schedules); every final answer (all C05/C06/C13 lookups + section extents) identical across schedules, and at >= 1 sync point per history the four replicas that may look answer one common probe identically (about 1 200 sync points, 2.3 M answers per quick run). Evidence shows first-use, incremental-replay and rebuild paths and pending<,=,> size relations all observed on both tree kinds (non-empty collections only).",
         "design_ref": "DESIGN.md section 5 C12",
         "note": "Schedules are placements of lookups inside a deterministic history, explored by construction, not by a scheduler; path counters rely on a wrapper around a private method (evidence only, but required for 'held').",
     },
